@@ -438,6 +438,18 @@ func (r *RefDB) Step(o Op, now int64) (ok bool) {
 		return true
 	case GraphVacuum:
 		cutoff := now - o.N
+		if o.N == 0 {
+			var ret time.Duration
+			for _, ix := range r.Idx {
+				if d := time.Duration(ix.Maint.GraphRetention); d > 0 {
+					ret = d
+				}
+			}
+			if ret == 0 {
+				return true // history kept forever
+			}
+			cutoff = now - int64(ret)
+		}
 		for _, rels := range r.Edges {
 			for rel, l := range rels {
 				var keep []*RefEdge
